@@ -265,6 +265,17 @@ func VerifHarness_C04_precommit_rule() {
 	if b, _ := w.blockOf(prop); b != nil {
 		w.ver.verdict[b] = true // it was validated before it could gather a polka from honest nodes
 	}
+	// an EARLIER round may have had a polka (for the locked block, or for some block while the node is
+	// unlocked): it must not count as this round's polka
+	if round == 1 {
+		if e := vNondetLen("polka-in-round-0", 0, 2); e != 0 {
+			vAssume(lock == 0 || (lock == e && lockRound == 0))
+			for _, v := range []int{0, 2, 3} {
+				w.seed(v, 0, types.VoteTypePrevote, e)
+			}
+			vReach("earlier-polka")
+		}
+	}
 	// prevotes of the current round: each peer voted nil / A / B / nothing
 	for _, v := range []int{0, 2, 3} {
 		if k := vNondetLen("prevote", -1, 2); k >= 0 {
